@@ -4,23 +4,69 @@ HOOKS = {
     "guard": "PALLETS_JINJA_VERIF",
     "enable": "no hooks: the checks only read /repo/src/jinja2 (ast); the guard name is declared but unused",
     "baseline_off_cmd": "cd /repo && /venv/bin/python -m pytest -ra -q -p no:cacheprovider --timeout=900 --continue-on-collection-errors",
-    "source_commits": [],
+    "source_commits": [
+        "b5ac1f3", "1edb1d6", "0e297eb", "e993b9c", "2be54ad", "7377f47", "ca6c519", "fab3d50", "1810991", "3594a47", "81ad9a8", "d90c18a",
+    ],
     "add_only": True,
 }
 
 NOTES = (
     "Static analysis only: every check parses /repo/src/jinja2 from the working tree on each run and decides "
     "structural clauses that are necessary conditions of the property; see DESIGN.md for what each check does "
-    "and does not decide. Exit 2 + ANALYSIS-ERROR means the analyser lost an anchor; it is never a verdict."
+    "and does not decide. Exit 2 + ANALYSIS-ERROR means the analyser lost an anchor; it is never a verdict. "
+    "hooks.source_commits lists the unguarded 'fix:' commits (genuine defect repairs); there are no instrumentation hooks."
 )
 
 _NOTE = "trusted: CPython's ast / re._parser, the reviewed rule tables in /verif/sa; assumes the parsed files are what is imported; decides structural clauses only, not runtime values"
 
+
+def _p(text: str, technique: str) -> dict:
+    return {"claimed": True, "text": text, "technique": technique, "note": _NOTE}
+
+
 PROPS = {
-    "C01": {
-        "claimed": True,
-        "text": "Decides the structural part of compile totality: dispatch closure (keywords, lexer states, token vocabulary, statement arms), classification of every raise on the compile path, guarded literal conversions, parser-side uniqueness obligations of emitted defs/calls, recursion guards, and that every code-generator skeleton (all flag valuations) parses as Python. Not decided: CPython accepting every instantiated skeleton, regex running time.",
-        "technique": "table agreement + raise inventory + regex structure (re._parser) + abstract interpretation of the code generator (skeletons parsed with ast)",
-        "note": _NOTE,
-    },
+    "C01": _p(
+        "Decides the structural part of compile totality: dispatch closure (keywords, lexer states, token vocabulary, statement arms), classification of every raise on the compile path, guarded literal conversions, parser-side uniqueness obligations of emitted defs/calls, recursion guards, and that every code-generator skeleton (all flag valuations) parses as Python. Not decided: CPython accepting every instantiated skeleton, regex running time.",
+        "table agreement + raise inventory + regex structure (re._parser) + abstract interpretation of the code generator (skeletons parsed with ast)",
+    ),
+    "C02": _p(
+        "Decides the precedence chain of the expression parser, agreement of the operator tables across lexer/parser/nodes/compiler/sandbox, the attribute-vs-item lookup order and the result name of compile_expression. Not decided: values of expressions.",
+        "call-graph shape of the recursive-descent levels + table agreement across five modules",
+    ),
+    "C08": _p(
+        "Decides that fold failures are deferred (except Exception -> Impossible around every computing as_const), that eval-context dependent nodes refuse under volatile and follow autoescape, that compiler fold sites are volatile-guarded and that only literal-evaluable values are folded (has_safe_repr recursion). Not decided: value equality of folded vs unfolded evaluation.",
+        "handler-coverage and guard-dominance rules over nodes.as_const / compiler fold sites",
+    ),
+    "C13": _p(
+        "Decides positional/keyword line-up of Template.__new__, overlay and babel_extract with Environment.__init__, completeness of the lexer cache key, delimiter ordering in compile_rules and overlay isolation. Not decided: equality of rendered output.",
+        "signature/table agreement + def-use of environment attributes in the lexer construction",
+    ),
+    "C19": _p(
+        "Decides by simulating _mutable_spec through the lookup loop that every public mutating method of list/dict/set/deque is blocked, that ImmutableSandboxedEnvironment.is_safe_attribute is super() AND NOT modifies_known_mutable (truth table), and that no filter/test mutates caller-owned data (effect flow). Not decided: mutation through callables supplied by the data.",
+        "table simulation against the interpreter's container method sets + effect/alias flow analysis",
+    ),
+    "C21": _p(
+        "Decides the operation table of the five undefined classes by resolving every protocol method through class-body aliases and the MRO; both operand orders of all template operators fail; sync/async iteration agree; message branches name the variable. Not decided: message text, pickle/copy round trips.",
+        "class-table resolution (aliases + MRO) compared with the documented operation table",
+    ),
+    "C23": _p(
+        "Decides that int/float conversions are covered by handlers for {TypeError, ValueError, OverflowError} reaching `return default`, input coercion of string filters, and truncate's length accounting as linear inequalities. Not decided: wrapping/rounding/truncation arithmetic over all inputs.",
+        "handler-coverage path rule + linear normal form of length expressions",
+    ),
+    "C25": _p(
+        "Decides the cache-hit path condition of _load_template as a truth table, the cache key, store-after-load, uptodate closures failing closed, and the size mapping of create_cache. Not decided: histories, eviction order.",
+        "guard truth-table + closure shape rules",
+    ),
+    "C26": _p(
+        "Decides lock discipline (all accesses to shared state inside the lock in mutating methods, aliases resolved), the shape of the locked primitives, orientation consistency and pickle/copy state coverage. Not decided: equivalence with a reference LRU, linearizability.",
+        "lock-discipline (who-may-access under which lock) + typestate shape rules",
+    ),
+    "C27": _p(
+        "Decides handler coverage of deserialisation, the acceptance path condition (code assigned only after magic and checksum matched), environment-dependence of the bucket identity (def-use), temp-file/replace/cleanup discipline of the file-system writer, magic contents and memcached error policy. Not decided: file-system crash points, histories.",
+        "CFG path rules (guard dominance, must-pass-through) + def-use slice",
+    ),
+    "C28": _p(
+        "Decides that every file-access sink in loaders receives a path that flowed through split_template_path, that this function rejects separators and parent references, posixpath joins from the search root, and sibling agreement of Choice/Prefix loaders. Not decided: symlinks / file-system behaviour.",
+        "taint flow from the template name to file sinks + sibling comparison",
+    ),
 }
